@@ -297,6 +297,14 @@ def check_vmlog(chk, m, info):
         idx_ok = all(mod_n(la[0], n) is not None and norm_head(strip_casts(mod_n(la[0], n)), info) == old for k, e, la in ls)
         before = all(k < hs[0] for k, e, la in ls)
         fmt_ok = any(la[1] == 0 and e.val == ("arg", 0) for k, e, la in ls)
+        # every argument slot receives a value fetched from the caller's argument list (whatever the format string says:
+        # "%*d" consumes two arguments for one conversion), never a constant
+        consts = [(k, e, la) for k, e, la in ls if la[1] != 0 and strip_casts(e.val)[0] in ("c", "null")]
+        if consts:
+            chk.ob("L2.args-from-caller", pid, False,
+                   "argument slot at element offset %d is filled with the constant %s on this path instead of the caller's next "
+                   "argument: a message whose format consumes it (for example \"%%*d\") is later formatted with the wrong value"
+                   % (consts[0][2][1], fmt(consts[0][1].val)), consts[0][1].inst.loc, fn.name)
         chk.ob("L2.write-then-count", pid, ok_fields and idx_ok and before and fmt_ok,
                "stores fmt + %d arguments (element offsets %s, expected %s) into slot (old head mod %d)%s%s, before the counter is incremented"
                % (len(want) - 1, offs, want, n, "" if idx_ok else " [slot index is not the old head mod N]",
